@@ -136,13 +136,15 @@ fn c13() -> (bool, String, String) {
 
 // ---- C15: random expression trees ----
 #[derive(Clone, Debug)]
-enum E { Zero, Var(usize), Const(i64), Add(Box<E>, Box<E>), Sub(Box<E>, Box<E>), Neg(Box<E>), Mul(Box<E>, i64) }
+enum E { Collect(Vec<(usize, i64)>, bool), Zero, Var(usize), Const(i64), Add(Box<E>, Box<E>), Sub(Box<E>, Box<E>), Neg(Box<E>), Mul(Box<E>, i64) }
 fn gen(r: &mut ChaChaRng, d: u32) -> E {
     use rand_core::RngCore;
-    let k = r.next_u32() % if d == 0 { 3 } else { 8 };
+    let k = r.next_u32() % if d == 0 { 4 } else { 9 };
     match k {
         0 => E::Var((r.next_u32() % 3) as usize),
         2 if d == 0 => E::Zero,
+        3 if d == 0 => { let n = 2 + r.next_u32() % 4; E::Collect((0..n).map(|_| ((r.next_u32() % 4) as usize, (r.next_u32() % 7) as i64 - 3)).collect(), r.next_u32() % 2 == 0) }
+        8 => { let n = 2 + r.next_u32() % 4; E::Collect((0..n).map(|_| ((r.next_u32() % 4) as usize, (r.next_u32() % 7) as i64 - 3)).collect(), r.next_u32() % 2 == 0) }
         7 => E::Sub(Box::new(E::Zero), Box::new(gen(r, d - 1))),
         1 => E::Const((r.next_u32() % 7) as i64 - 3),
         2 => E::Add(Box::new(gen(r, d - 1)), Box::new(gen(r, d - 1))),
@@ -153,8 +155,10 @@ fn gen(r: &mut ChaChaRng, d: u32) -> E {
     }
 }
 fn fr(i: i64) -> Fr { if i >= 0 { Fr::from(i as u64) } else { -Fr::from((-i) as u64) } }
-fn eval(e: &E, x: &[Fr]) -> Fr { match e { E::Zero => Fr::zero(), E::Var(i) => x[*i], E::Const(c) => fr(*c), E::Add(a, b) => eval(a, x) + eval(b, x), E::Sub(a, b) => eval(a, x) - eval(b, x), E::Neg(a) => -eval(a, x), E::Mul(a, k) => eval(a, x) * fr(*k) } }
+fn eval(e: &E, x: &[Fr]) -> Fr { match e { E::Collect(ts, _) => ts.iter().map(|(i, c)| (if *i == 3 { Fr::one() } else { x[*i] }) * fr(*c)).sum(), E::Zero => Fr::zero(), E::Var(i) => x[*i], E::Const(c) => fr(*c), E::Add(a, b) => eval(a, x) + eval(b, x), E::Sub(a, b) => eval(a, x) - eval(b, x), E::Neg(a) => -eval(a, x), E::Mul(a, k) => eval(a, x) * fr(*k) } }
 fn lc(e: &E, v: &[Variable<Fr>]) -> LinearCombination<Fr> { match e {
+    E::Collect(ts, owned) => { let l: Vec<(Variable<Fr>, Fr)> = ts.iter().map(|(i, c)| (if *i == 3 { Variable::One() } else { v[*i] }, fr(*c))).collect();
+        if *owned { l.into_iter().collect() } else { l.iter().collect() } },
     E::Zero => LinearCombination::default(), E::Var(i) => v[*i].into(), E::Const(c) => fr(*c).into(),
     E::Add(a, b) => lc(a, v) + lc(b, v), E::Sub(a, b) => lc(a, v) - lc(b, v), E::Neg(a) => -lc(a, v), E::Mul(a, k) => lc(a, v) * fr(*k) } }
 fn c15_case(seed: u64) -> Option<String> {
@@ -185,7 +189,7 @@ fn c15_case(seed: u64) -> Option<String> {
 fn c15(replay: Option<u64>) -> (bool, String, String) {
     if let Some(s) = replay { return match c15_case(s) { Some(m) => (true, s.to_string(), m), None => (false, s.to_string(), "ok".into()) }; }
     for s in 0..300u64 { if let Some(m) = c15_case(s) { return (true, s.to_string(), m); } }
-    (false, "null".into(), "300 random expression trees (depth <= 3), true and false constants".into())
+    (false, "null".into(), "300 random expression trees (depth <= 3, incl. empty combinations and collected term lists with repeated variables), true and false constants".into())
 }
 
 // ---- C16: call sequences ----
